@@ -22,7 +22,17 @@ var c13Calls = map[string]bool{
 	"t.extremityNodes": true, "t.adjacentNodes": true, "slices.Contains": true, "node.descendents": true,
 }
 
-func c13Skeleton(f *ast.File, fn string) []string {
+func c13Skeleton(f *ast.File, fn string) []string { return c13SkeletonX(f, fn, nil, nil) }
+
+// round 5: the glue around walk (services.go, graph.go, cycle.go) — more call names and assignment targets, without
+// changing the skeletons of traversal.go
+var c13GlueCalls = map[string]bool{
+	"newGraph": true, "newTraversal": true, "walk": true, "option": true, "g.addVertex": true, "g.checkCycle": true,
+	"searchCycle": true, "utils.MapKeys": true, "slices.Index": true, "fmt.Errorf": true, "append": true,
+}
+var c13GlueLhs = []string{"src.children[", "dest.parents[", "g.vertices[", "res", "err", "src", "names", "ch"}
+
+func c13SkeletonX(f *ast.File, fn string, moreCalls map[string]bool, moreLhs []string) []string {
 	var out []string
 	for _, d := range f.Decls {
 		fd, ok := d.(*ast.FuncDecl)
@@ -42,7 +52,7 @@ func c13Skeleton(f *ast.File, fn string) []string {
 						a = append(a, src(e))
 					}
 					out = append(out, name+"("+strings.Join(a, ", ")+")")
-				case c13Calls[name]:
+				case c13Calls[name] || moreCalls[name]:
 					out = append(out, name)
 				}
 			case *ast.SendStmt:
@@ -72,6 +82,13 @@ func c13Skeleton(f *ast.File, fn string) []string {
 				l := src(x.Lhs[0])
 				if strings.HasPrefix(l, "t.status[") || strings.HasPrefix(l, "t.results[") || l == "expect" || l == "depends" {
 					out = append(out, l+" "+x.Tok.String()+" "+src(x.Rhs[0]))
+				} else {
+					for _, p := range moreLhs {
+						if l == p || (strings.HasSuffix(p, "[") && strings.HasPrefix(l, p)) {
+							out = append(out, l+" "+x.Tok.String()+" "+src(x.Rhs[0]))
+							break
+						}
+					}
 				}
 			}
 			return true
@@ -93,6 +110,17 @@ func genC13Facts() (string, string) {
 	}
 	g := parse("graph/graph.go")
 	fmt.Fprintf(&b, "/-- graph/graph.go `descendents` -/\ndef c13_descendents : List String := [%s]\n", joinLean(c13Skeleton(g, "descendents")))
+	for _, file := range []struct {
+		path string
+		fns  []string
+	}{{"graph/services.go", []string{"CollectInDependencyOrder", "newGraph"}}, {"graph/graph.go", []string{"roots", "leaves"}}, {"graph/cycle.go", []string{"checkCycle", "searchCycle"}}} {
+		pf := parse(file.path)
+		for _, fn := range file.fns {
+			sk := c13SkeletonX(pf, fn, c13GlueCalls, c13GlueLhs)
+			total += len(sk)
+			fmt.Fprintf(&b, "\n/-- %s `%s`: operations in source order -/\ndef c13_%s : List String := [\n  %s]\n", file.path, fn, fn, strings.Join(quoteAll(sk), ",\n  "))
+		}
+	}
 	b.WriteString("\nend CV.Gen\n")
 	fmt.Fprintf(logw, "C13 facts: %d skeleton entries of graph/traversal.go\n", total)
 	return "C13Facts.lean", b.String()
